@@ -82,7 +82,9 @@ pub fn check_program<'p>(p: &mut Program<'p>, e: &E, rep: &mut Report, use_model
         }
         if use_model && base.outcome.starts_with("V ") {
             let m = refeval::run_ref(&traced);
-            if let RefOutcome::Value(_) = m.outcome {
+            // (a tailstrict call forces its arguments in the specification, in the
+            // implementation only in tail position: run counts are not compared then)
+            if let (RefOutcome::Value(_), 0) = (&m.outcome, m.tailstrict_calls) {
                 let want = count(&m.traces, "b__");
                 rep.count("model_counts_compared", 1);
                 if want != runs {
@@ -201,6 +203,36 @@ pub const SEEDS: &[(&str, &str)] = &[
     ("std.any([true, @@])", "true"),
     ("std.setMember(1, [1]) || @@", "true"),
     ("local f(n, acc) = if n == 0 then acc else f(n - 1, @@) tailstrict; 1", "1"),
+    // builtins that pass an argument or an element through without looking at it
+    ("std.foldl(function(acc, x) x, [1, 2], @@)", "2"),
+    ("std.foldr(function(x, acc) x, [1, 2], @@)", "1"),
+    ("std.foldl(function(acc, x) acc, [@@, @@], 5)", "5"),
+    ("std.foldr(function(x, acc) acc, [@@, @@], 5)", "5"),
+    ("std.foldl(function(a, x) a + 1, [@@, @@], 0)", "2"),
+    ("std.length(std.filter(function(x) true, [@@]))", "1"),
+    ("std.length(std.flatMap(function(x) [x], [@@]))", "1"),
+    ("std.length(std.filterMap(function(x) true, function(x) x, [@@]))", "1"),
+    ("std.length(std.flattenArrays([[@@], [@@]]))", "2"),
+    ("std.objectRemoveKey({a: @@, b: 1}, \"a\").b", "1"),
+    ("std.objectFields(std.objectRemoveKey({a: @@, b: 1}, \"b\"))", "[\"a\"]"),
+    ("std.length(std.removeAt([@@, 1], 1))", "1"),
+    ("std.length(std.sort([@@], function(x) 1))", "1"),
+    ("std.length(std.makeArray(2, function(i) @@))", "2"),
+    ("std.length(std.map(function(x) @@, [1, 2]))", "2"),
+    ("std.length(std.mapWithKey(function(k, v) @@, {a: 1}))", "1"),
+    ("std.length(std.objectValuesAll({a:: @@}))", "1"),
+    ("std.length(std.objectKeysValuesAll({a:: @@}))", "1"),
+    ("std.objectHasAll({a:: @@}, \"a\")", "true"),
+    ("std.length(std.uniq([@@]))", "1"),
+    ("std.length(std.set([@@]))", "1"),
+    ("std.mapWithIndex(function(i, x) i, [@@])", "[0]"),
+    ("std.length(std.setUnion([@@], []))", "1"),
+    ("std.length(std.setDiff([@@], []))", "1"),
+    ("std.length(std.setInter([@@], []))", "0"),
+    ("[x for x in [@@, 2]][1]", "2"),
+    ("[1 for x in [@@, @@]]", "[1, 1]"),
+    ("std.length({[k]: @@ for k in [\"a\", \"b\"]})", "2"),
+    ("std.length(std.reverse(std.makeArray(3, function(i) @@)))", "3"),
 ];
 
 /// once-only evaluation through sharing: the traced expression is used several times
@@ -283,6 +315,59 @@ fn shared_local_programs() -> Vec<(String, usize)> {
     v
 }
 
+
+// ------------------------------------------------------------------ edited programs
+
+/// Every single edit of the feature-interaction seed programs (C02's) that parses, passes the
+/// static rules and yields a value: the full per-node treatment of `check_program`.
+fn edit_sweep(two: bool, sh: &util::Shard) -> Report {
+    let mut rep = Report::new();
+    let mut n = 0u64;
+    for seed in crate::c02::SEM_SEEDS {
+        // quick tier: fragment edits only (member-/clause-sized pieces); thorough: all
+        let alphabet: Vec<&str> = crate::c02::SEM_ALPHABET.iter().copied().filter(|a| two || a.contains(' ')).collect();
+        let cases = crate::c01::edit_cases_with(seed, two, &alphabet);
+        let base = n;
+        n += cases.len() as u64;
+        let mut start = 0usize;
+        while start < cases.len() {
+            let arena = Arena::new();
+            let mut p = Program::new(&arena);
+            let mut next = cases.len();
+            for (ci, src) in cases.iter().enumerate().skip(start) {
+                let id = base + ci as u64 + 1;
+                if !sh.mine(id) || !sh.begin_case(id, &|| src.clone()) {
+                    continue;
+                }
+                let e = match util::catch(|| crate::c15::impl_parse(src.as_bytes())) {
+                    Ok(crate::c15::Parsed::Tree(e, _)) => crate::c15::plain_numbers(&syntax::strip_parens(&e)),
+                    _ => continue,
+                };
+                if !syntax::static_check(&e, true).is_empty() || node_count(&e) > 40 {
+                    continue;
+                }
+                // only programs that yield a value under the small frame limit (the others are C02's)
+                match util::catch(|| rt::run_on(&mut p, src.as_bytes(), &RunCfg { max_stack: Some(200), ..Default::default() })) {
+                    Ok(r) if r.outcome.is_value() => {}
+                    Ok(_) => continue,
+                    Err(_) => {
+                        next = ci + 1;
+                        break;
+                    }
+                }
+                rep.count("edited_programs_treated", 1);
+                if let Err(m) = check_program(&mut p, &e, &mut rep, true) {
+                    rep.violation(format!("C04/panic/{}", util::panic_site(&m)), format!("panic on a variant of `{src}`: {m}"), json!({"type":"eval","source":src}));
+                    next = ci + 1;
+                    break;
+                }
+            }
+            start = next;
+        }
+    }
+    rep
+}
+
 pub fn run(ctx: &Ctx) -> i32 {
     let plan: Vec<(Profile, usize)> = if ctx.quick() {
         vec![(corpus::LAZY, 3), (corpus::FUNCTIONS, 3), (corpus::OBJECTS, 3), (corpus::COMPS, 3)]
@@ -299,6 +384,11 @@ pub fn run(ctx: &Ctx) -> i32 {
             total.extra.insert(format!("programs_{}_{}", p.name, n), json!(r.states));
             total.merge(r);
         }
+    }
+    {
+        let r = util::par_forked(&cfg, 256, |sh| edit_sweep(!ctx.quick(), sh));
+        total.extra.insert("edited_programs_treated".into(), json!(r.counters.get("edited_programs_treated").copied().unwrap_or(0)));
+        total.merge(r);
     }
     // seeds
     for (tmpl, want) in SEEDS {
@@ -363,7 +453,7 @@ pub fn run(ctx: &Ctx) -> i32 {
         ctx,
         LevelInfo {
             level: "model_checking",
-            rule: "every program of the lazy/functions/objects/comprehensions corpora up to the node bound x every node: std.trace wrapping (run count vs reference interpreter), replacement of never-run nodes by a failing expression, 7-9 meaning-preserving rewrites; plus hand-written builtin seeds. distinct+nontrivial = distinct (run count, node kind, value/error)".into(),
+            rule: "every program of the lazy/functions/objects/comprehensions corpora up to the node bound, and every single edit of the 22 feature-interaction seed programs that parses, passes the static rules and yields a value, x every node: std.trace wrapping (run count vs reference interpreter), replacement of never-run nodes by a failing expression, 7-9 meaning-preserving rewrites; plus hand-written builtin seeds. distinct+nontrivial = distinct (run count, node kind, value/error)".into(),
             assumptions: vec!["run counts are compared with the model only for programs that yield a value (the order of evaluation before a failure is unspecified)".into()],
         },
         total,
